@@ -132,7 +132,7 @@ func runC06(ctx *Ctx) {
 		depthChild()
 		return
 	}
-	n := ctx.N(2500, 60000)
+	n := ctx.N(6000, 80000)
 	for _, t := range ctx.types() {
 		t := t
 		ctx.CheckRapid(string(t.Name), n, func(rt *rapid.T) *Case {
